@@ -1317,16 +1317,20 @@ theorem getGraphicDataS_state {α : Type} (gt : String) (enc : Enc α) (ct : Int
     simp [getGraphicDataS, hc, h1, h2, hdec]
   · exact ⟨g, by simp [getGraphicDataS, hc], h1, h2, Or.inr hc⟩
 
-/-- one access: the answer does not depend on the state, and the state stays a read state -/
+/-- one access with the group's coordinate type: the answer does not depend on the state, and the state
+stays a read state -/
 theorem accessS_state {α : Type} (gt : String) (enc : Enc α) (ct : Int) (G : GData α)
-    (hdec : decode gt enc ct = .ok G) (g : Group α) (h : ReadState gt enc ct G g) (a : Access) :
-    (accessS g ct a).1 = (accessS { gtype := gt, enc := enc, cache := none } ct a).1 ∧
-    ReadState gt enc ct G (accessS g ct a).2 := by
+    (hdec : decode gt enc ct = .ok G) (g : Group α) (h : ReadState gt enc ct G g) (a : Access) (hct : a.ct = ct) :
+    (accessS g a).1 = (accessS { gtype := gt, enc := enc, cache := none } a).1 ∧
+    ReadState gt enc ct G (accessS g a).2 := by
   obtain ⟨g', hg', hs'⟩ := getGraphicDataS_state gt enc ct G hdec g h
   obtain ⟨g0, hg0, _⟩ := getGraphicDataS_state gt enc ct G hdec { gtype := gt, enc := enc, cache := none } ⟨rfl, rfl, Or.inl rfl⟩
   cases a with
-  | whole => simp [accessS, hg', hg0, hs']
-  | nth k =>
+  | whole c =>
+    simp only [Access.ct] at hct; subst hct
+    simp [accessS, hg', hg0, hs']
+  | nth k c =>
+    simp only [Access.ct] at hct; subst hct
     simp only [accessS]
     cases hci : coordIndex k with
     | error e => exact ⟨rfl, h⟩
@@ -1337,17 +1341,16 @@ theorem accessS_state {α : Type} (gt : String) (enc : Enc α) (ct : Int) (G : G
       · simp only [hi, if_false]
         cases G[i.toNat]? <;> simp [hs']
 
-/-- **the answers of any sequence of accesses are those of the same accesses made one by one on a freshly
-parsed object** -/
+/-- **the answers of any sequence of accesses that all use coordinate type `ct` are those of the same accesses
+made one by one on a freshly parsed object** -/
 theorem runHistory_independent {α : Type} (gt : String) (enc : Enc α) (ct : Int) (G : GData α)
-    (hdec : decode gt enc ct = .ok G) (accs : List Access) : ∀ (g : Group α), ReadState gt enc ct G g →
-    runHistory g ct accs = accs.map (fun a => (accessS { gtype := gt, enc := enc, cache := none } ct a).1) := by
+    (hdec : decode gt enc ct = .ok G) (accs : List Access) : (∀ a ∈ accs, a.ct = ct) → ∀ (g : Group α), ReadState gt enc ct G g →
+    runHistory g accs = accs.map (fun a => (accessS { gtype := gt, enc := enc, cache := none } a).1) := by
   induction accs with
-  | nil => intro g _; rfl
+  | nil => intro _ g _; rfl
   | cons a rest ih =>
-    intro g h
-    obtain ⟨h1, h2⟩ := accessS_state gt enc ct G hdec g h a
-    simp only [runHistory, List.map_cons, h1, ih _ h2]
-
+    intro hall g h
+    obtain ⟨h1, h2⟩ := accessS_state gt enc ct G hdec g h a (hall a (by simp))
+    simp only [runHistory, List.map_cons, h1, ih (fun x hx => hall x (by simp [hx])) _ h2]
 
 end HdVerif.Ann
